@@ -24,8 +24,9 @@ import vlib
 from vlib import SplitMix
 
 IDL_FILES = ['Idl/Unicode.v', 'Idl/Lexer.v', 'Idl/Ast.v', 'Idl/Parser.v', 'Idl/Resolve.v', 'Idl/Printer.v',
-             'Idl/WireSchema.v', 'Idl/LexerFacts.v', 'Idl/ParserFacts.v', 'Idl/ResolveFacts.v',
-             'Idl/WireSchemaFacts.v', 'Idl/PrinterFacts.v']
+             'Idl/WireSchema.v', 'Idl/TokSpec.v', 'Idl/SchemaSpec.v', 'Idl/LexerFacts.v', 'Idl/ParserFacts.v',
+             'Idl/ResolveFacts.v', 'Idl/RecFacts.v', 'Idl/PruneFacts.v', 'Idl/ParseFacts.v', 'Idl/WireSchemaFacts.v',
+             'Idl/WireOrderFacts.v', 'Idl/PrinterFacts.v', 'Idl/IndexFacts.v']
 SHARED_DEPS = ['Prim/Varint.vo', 'Prim/VarintFacts.vo', 'Codec/Codecs.vo', 'Schema/Schema.vo', 'Stream/Frame.vo',
                'Stream/Reader.vo']
 
@@ -657,6 +658,25 @@ def main():
                                 counters['oracle'] += 1
                                 verdict.violation(dict(schema=name, root=root, new_wire_schema=rest, generated_code=scraped[key]),
                                                   f'{name}: wireSchema{root} in the generated code differs from NewWireSchema')
+    # computeRecursive keeps no visited set: a chain of N structs with two references each costs 2^N
+    # (the parser terminates, but a ~1 KB schema can take days); observed on the implementation only
+    if ok_go and PROP == 'C12':
+        def chain(depth):
+            t = 'package a\n' + '\n'.join(f'struct S{i} {"root" if i == 0 else ""} {{ a S{i+1} b S{i+1} }}' for i in range(depth))
+            return hexline('P', (t + f'\nstruct S{depth} {{ x int64 }}').encode())
+        times = {}
+        for d in (12, 20):
+            t1 = time.time()
+            vlib.run_lines(gobin, [chain(d)], timeout=120)
+            times[d] = time.time() - t1
+        coverage['recursion_marking_probe_s'] = {str(k): round(v, 3) for k, v in times.items()}
+        if times[20] > 0.12 and times[20] > 6 * times[12]:
+            kid = 'C12-exponential-recursion-marking'
+            if kid in known:
+                verdict.known_finding(kid, known[kid]['what_fails'])
+            else:
+                verdict.violation(dict(input='chain of 20 structs, two references each', seconds=times),
+                                  'computeRecursive takes time exponential in the schema depth')
     if info['broken'] and not verdict.violations:
         verdict.violation(dict(broken=info['broken'], searched=f'{n_eval} inputs, none fails'),
                           'proof obligation no longer checks: ' + '; '.join(info['broken'])[:300], no_input=True)
